@@ -93,14 +93,23 @@ namespace bloch::compiler {
             int depth = 0;
             size_t j = i + 1;
             while (j < m_tokens.size()) {
-                if (m_tokens[j].type == TokenType::Less)
+                TokenType t = m_tokens[j].type;
+                if (t == TokenType::Less)
                     depth++;
-                else if (m_tokens[j].type == TokenType::Greater) {
+                else if (t == TokenType::Greater) {
                     depth--;
                     if (depth == 0) {
                         i = j;
                         break;
                     }
+                } else if (t != TokenType::Identifier && t != TokenType::Dot &&
+                           t != TokenType::Comma && t != TokenType::LBracket &&
+                           t != TokenType::RBracket && t != TokenType::IntegerLiteral &&
+                           t != TokenType::Int && t != TokenType::Long && t != TokenType::Float &&
+                           t != TokenType::Char && t != TokenType::String && t != TokenType::Bit &&
+                           t != TokenType::Qubit && t != TokenType::Boolean) {
+                    // Not a type-argument list: '<' was a comparison, e.g. '(a < b) > c'.
+                    return;
                 }
                 j++;
             }
